@@ -3,6 +3,7 @@ import Drv.Diag
 import Drv.Slice
 import Drv.Bonf
 import Drv.DepGraph
+import Drv.EnvP
 open Lean
 
 def dispatch (model : String) (j : Json) : Except String Json :=
@@ -12,6 +13,7 @@ def dispatch (model : String) (j : Json) : Except String Json :=
   | "slice" => Drv.Slice.run j
   | "bonf" => Drv.Bonf.run j
   | "depgraph" => Drv.DepGraph.run j
+  | "envp" => Drv.EnvP.run j
   | "diagreads" => Drv.Diag.runReads j
   | _ => throw s!"bad-model {model}"
 
